@@ -936,10 +936,19 @@ func (d *docState) writePageObjects(p *pageState, lines []Line, set map[int]Obj,
 		mainLines = lines[:len(lines)-1-nest]
 		prog = d.contentFor(mainLines, r)
 		prog = append(prog, []byte("q /Fx1 Do Q\n")...)
+		// a form may map the font names differently from the page that invokes it (/F1 of
+		// the form is another font than /F1 of the page): its own resources win inside it,
+		// and nothing of that may stick to the page afterwards
+		shift := 0
+		if len(d.fonts) > 1 && r.Split("formshift").Bool() {
+			shift = 1
+		}
+		pageGroup := d.curGroup
+		d.curGroup = p.group + shift
 		fp := d.contentFor(formLines, r)
 		fontRes := d.resDict.Get("Font")
-		if p.group > 0 {
-			fontRes = d.groupResources(p.group).Get("Font")
+		if p.group+shift > 0 {
+			fontRes = d.groupResources(p.group + shift).Get("Font")
 		}
 		// content decisions first, storage decisions (resources of their own, filter
 		// geometry) afterwards: the latter draw differently from layout to layout
@@ -949,6 +958,7 @@ func (d *docState) writePageObjects(p *pageState, lines []Line, set map[int]Obj,
 			fp = append(fp, []byte("q /Fx"+strconv.Itoa(k+2)+" Do Q\n")...)
 			kidProgs = append(kidProgs, d.contentFor(lines[len(lines)-nest+k:len(lines)-nest+k+1], r))
 		}
+		d.curGroup = pageGroup
 		for k, kp := range kidProgs {
 			name := "Fx" + strconv.Itoa(k+2)
 			ks := &Stream{Dict: Dict{{"Type", Name("XObject")}, {"Subtype", Name("Form")}, {"BBox", Arr{0, 0, 612, 792}}}, Plain: kp}
@@ -960,7 +970,7 @@ func (d *docState) writePageObjects(p *pageState, lines []Line, set map[int]Obj,
 			kidsDict = append(kidsDict, KV{name, d.ref(d.xobjKids[k])})
 		}
 		fs := &Stream{Dict: Dict{{"Type", Name("XObject")}, {"Subtype", Name("Form")}, {"BBox", Arr{0, 0, 612, 792}}}, Plain: fp}
-		if r.Bool() {
+		if r.Bool() || shift > 0 {
 			// a form may carry its own resources; without them it uses the page's
 			own := Dict{{"Font", fontRes}}
 			if nest > 0 {
